@@ -140,6 +140,18 @@ def gen_program(rnd):
         lines.append("Q[%s, %s, %s] = %s" % (qidx(0), qidx(1), qidx(2), elem()))
         lines.append("r%d = Q[%s][%s][%s] + Q[%s, %s][%s] + 0" % (nres, qidx(0), qidx(1), qidx(2), qidx(0), qidx(1), qidx(2)))
         nres += 1
+    if two_d and rnd.random() < 0.3:
+        # a second Array built from the first (or from one row repeated): writes to the one must not show in the other
+        kinds.add("array-built-from-array")
+        lines.append("C2 = Array(A)")
+        lines.append("C2[%s, %d] = %s" % (index(0), rnd.randint(0, shape[1] - 1), elem()))
+        lines.append("C2[%s, %s] = %s" % (index(0), index(1), elem()))
+        lines.append("r%d = C2[%s][%s] + 0" % (nres, index(0), index(1)))
+        nres += 1
+        lines.append("G = Array([A[0]] * %d)" % shape[0])
+        lines.append("G[%s, %d] = %s" % (index(0), rnd.randint(0, shape[1] - 1), elem()))
+        lines.append("r%d = sum(G.joined()) + 0" % nres)
+        nres += 1
     if two_d and rnd.random() < 0.4:
         kinds.add("row-view")
         lines.append("row = A[%s]" % index(0))
